@@ -9,6 +9,7 @@ import TcVerif.Driver.Seal
 import TcVerif.Driver.Backend
 import TcVerif.Driver.Wire
 import TcVerif.Driver.CloudConc
+import TcVerif.Driver.CleanConc
 
 open Tc.Driver
 
@@ -227,6 +228,28 @@ partial def loopJudgeCloudConc (h : IO.FS.Stream) (out : IO.FS.Stream) (j : CJ) 
   for o in outs do out.putStrLn o
   loopJudgeCloudConc h out j'
 
+partial def loopCleanConc (h : IO.FS.Stream) (out : IO.FS.Stream) (st : KState) : IO Unit := do
+  let line ← h.getLine
+  if line.isEmpty then return ()
+  if line.startsWith "#" then
+    out.putStrLn line.trimAscii.toString
+    loopCleanConc h out (if line.startsWith "# case" then {} else st)
+  else
+    out.putStrLn ("> " ++ line.trimAscii.toString)
+    let (st', outs) := kLine st line
+    for o in outs do
+      out.putStrLn o
+    loopCleanConc h out st'
+
+partial def loopJudgeCleanConc (h : IO.FS.Stream) (out : IO.FS.Stream) (j : KJ) : IO Unit := do
+  let line ← h.getLine
+  if line.isEmpty then
+    for o in kjFlush j do out.putStrLn o
+    return ()
+  let (j', outs) := kjLine j (line.dropEndWhile (· == '\n')).toString
+  for o in outs do out.putStrLn o
+  loopJudgeCleanConc h out j'
+
 def main (args : List String) : IO UInt32 := do
   let stdin ← IO.getStdin
   let stdout ← IO.getStdout
@@ -240,6 +263,8 @@ def main (args : List String) : IO UInt32 := do
   | ["model", "seal"] => loopSeal stdin stdout {} true; return 0
   | ["sealgen"] => loopSeal stdin stdout {} false; return 0
   | ["judge", "seal"] => loopJudgeSeal stdin stdout "" "" []; return 0
+  | ["model", "cleanconc"] => loopCleanConc stdin stdout {}; return 0
+  | ["judge", "cleanconc"] => loopJudgeCleanConc stdin stdout {}; return 0
   | ["model", "cloudconc"] => loopCloudConc stdin stdout {}; return 0
   | ["judge", "cloudconc"] => loopJudgeCloudConc stdin stdout {}; return 0
   | ["model", "wire"] => loopWire stdin stdout; return 0
